@@ -222,6 +222,18 @@ func init() {
 		{Kind: "calls", File: an + "remove_self_aliasing.go", Func: "removeSelfAliasingVisitor.EnterField", Name: "removeSelfAliasing", Match: nm},
 		{Kind: "calls", File: an + "variables_default_value_extraction.go", Func: "variablesDefaultValueExtractionVisitor.EnterVariableDefinition", Name: "defaultEnterVariableDefinition", Match: nm},
 	}
+	// C20: how the response JSON is built from the proto message and how resolver results are merged back
+	gd := "v2/pkg/engine/datasource/grpc_datasource/"
+	gm := []string{"if", "return", "for", "j.*", "p.*", "root.*", "message.*", "field.*", "data.*", "astjson.*", "append", "fmt.Errorf", "errors.New", "list.*", "responseValues[].Set", "continue"}
+	specs["C20"] = []item{
+		{Kind: "calls", File: gd + "json_builder.go", Func: "jsonBuilder.marshalResponseJSON", Name: "marshalResponseJSON", Match: gm},
+		{Kind: "calls", File: gd + "json_builder.go", Func: "jsonBuilder.mergeWithPath", Name: "mergeWithPath", Match: gm},
+		{Kind: "calls", File: gd + "json_builder.go", Func: "jsonBuilder.flattenObject", Name: "flattenObject", Match: gm},
+		{Kind: "calls", File: gd + "json_builder.go", Func: "jsonBuilder.flattenList", Name: "flattenList", Match: gm},
+		{Kind: "calls", File: gd + "compiler.go", Func: "RPCCompiler.processRepeatedField", Name: "processRepeatedField", Match: gm},
+		{Kind: "calls", File: gd + "compiler.go", Func: "RPCCompiler.getEnumValue", Name: "getEnumValue", Match: gm},
+		{Kind: "calls", File: gd + "compiler.go", Func: "RPCCompiler.setValueForKind", Name: "setValueForKind", Match: gm},
+	}
 	// C15: the literal → JSON converter and the block string value
 	av := "v2/pkg/ast/ast_value.go"
 	asv := "v2/pkg/ast/ast_val_string_value.go"
